@@ -2,6 +2,7 @@ package envsched
 
 import (
 	"fmt"
+	"slices"
 	"sync"
 	"testing"
 
@@ -16,6 +17,8 @@ import (
 var c09Stages = []struct{ stage, mode string }{
 	{"fork.Map", "pure"}, {"fork.Map", "try"}, {"fork.FMap", "lift"}, {"fork.FMap", "try"},
 	{"fork.Filter", "pure"}, {"fork.Partition", "pure"}, {"fork.ForEach", "pure"}, {"fork.Void", "pure"},
+	// fail-fast failures: each failing worker stops; closure / cancellation / no-leak must still hold
+	{"fork.Map", "lift!"}, {"fork.FMap", "lift!"},
 }
 
 var (
@@ -92,6 +95,11 @@ func genC09(t *testing.T) {
 		} else {
 			c.End = "complete"
 		}
+		if c.Mode == "lift!" {
+			c.Mode = "lift"
+			// the errors of fail-fast workers are not read by single receives: end game or nobody
+			c.Script = slices.DeleteFunc(slices.Clone(c.Script), func(m string) bool { return m[0] == 'E' })
+		}
 		c.Site = c.Stage + "/" + c.Mode
 		c.Tick = 1000000
 		runCase(t, c, c09Hooks())
@@ -109,6 +117,12 @@ func genC09(t *testing.T) {
 				var fail []int
 				if st.mode == "try" && ln > 0 {
 					fail = []int{in[ln/2]}
+				}
+				if st.mode == "lift!" && ln > 0 {
+					fail = in[:min(ln, par+1)] // more failing elements than workers: every worker stops
+					if ln%2 == 0 {
+						fail = in[ln/2:]
+					}
 				}
 				prod := append(rep("S0", ln), "C0")
 				cons := consumerSeqs(st.stage, 1)
@@ -145,7 +159,7 @@ func genC09(t *testing.T) {
 		}
 		in := ids(1000, ln)
 		var fail []int
-		if st.mode == "try" {
+		if st.mode == "try" || st.mode == "lift!" {
 			for _, x := range in {
 				if r.IntN(4) == 0 {
 					fail = append(fail, x)
